@@ -1635,7 +1635,8 @@ func (p *parser) primaryExpression() (Node, error) {
 			return nil, err
 		}
 
-		child, err := p.expression(precedence(lexer.AddToken))
+		// a unary sign binds tighter than every binary operator
+		child, err := p.expression(precedence(lexer.MultiplyToken))
 		if err != nil {
 			return nil, err
 		}
@@ -1857,7 +1858,7 @@ func (p *parser) primaryExpression() (Node, error) {
 			return nil, err
 		}
 
-		child, err := p.expression(precedence(lexer.SubtractToken))
+		child, err := p.expression(precedence(lexer.MultiplyToken))
 		if err != nil {
 			return nil, err
 		}
